@@ -130,28 +130,40 @@ def run(rep, br, proofs, rng, tier):
     impl, culprits = vlib.run_impl_robust(cases, batch=40, timeout=120)
     fails, compared, kinds = [], 0, {}
     for c, how in culprits: fails.append((c, "the harness did not return (%s)" % how))
+    def judge(c, out):
+        """None (holds), "skip" (nothing to compare) or the reason of a failure"""
+        if out == "(obs-compile-error)": raise RuntimeError("C07: the observed script of case %s does not compile:\n%s" % (c["id"], c["obs"]))
+        if not out.startswith("(history"): return "unexpected: " + out[:200]
+        sx = vlib.parse_sexp(out)
+        used, again, fresh, unch = vlib.sexp_str(sx[2][1]), vlib.sexp_str(sx[3][1]), vlib.sexp_str(sx[4][1]), sx[5]
+        base = vlib.sexp_str(sx[6][1]) if len(sx) > 6 else fresh
+        if "(timeout)" in fresh or "(timeout)" in base: return "skip"
+        if fresh != base:
+            return "after the history %s the script gives %s on a NEW VM; before the history a new VM gave %s (state kept outside the VM, e.g. in the pool of child VMs)" % (c["hist"], fresh[:300], base[:300])
+        if used != fresh:
+            return "after the history %s the script gives %s on the used VM and %s on a new VM" % (c["hist"], used[:300], fresh[:300])
+        if again != fresh:
+            return "running the same Bytecode again on the used VM gives %s, a new VM gives %s" % (again[:300], fresh[:300])
+        if unch[1] != "1" or unch[2] != "1":
+            return "executing a Bytecode modified it (digest before and after the runs differs)"
+        return None
+    suspects = []
     for c in cases:
         out = impl.get(c["id"])
         if out is None: continue
-        if out == "(obs-compile-error)": raise RuntimeError("C07: the observed script of case %s does not compile:\n%s" % (c["id"], c["obs"]))
-        if not out.startswith("(history"): fails.append((c, "unexpected: " + out[:200])); continue
-        sx = vlib.parse_sexp(out)
-        used, again, fresh, unch = vlib.sexp_str(sx[2][1]), vlib.sexp_str(sx[3][1]), vlib.sexp_str(sx[4][1]), sx[5]
         for hname in c["hist"]:
             hname = hname.split(":")[0] + (":" + hname.split(":")[2] if hname.startswith("composed") else "")
             kinds[hname] = kinds.get(hname, 0) + 1
-        if "(timeout)" in fresh: continue
+        why = judge(c, out)
+        if why == "skip": continue
         compared += 1
-        base = vlib.sexp_str(sx[6][1]) if len(sx) > 6 else fresh
-        if "(timeout)" in base: continue
-        if fresh != base:
-            fails.append((c, "after the history %s the script gives %s on a NEW VM; before the history a new VM gave %s (state kept outside the VM, e.g. in the pool of child VMs)" % (c["hist"], fresh[:300], base[:300])))
-        elif used != fresh:
-            fails.append((c, "after the history %s the script gives %s on the used VM and %s on a new VM" % (c["hist"], used[:300], fresh[:300])))
-        elif again != fresh:
-            fails.append((c, "running the same Bytecode again on the used VM gives %s, a new VM gives %s" % (again[:300], fresh[:300])))
-        elif unch[1] != "1" or unch[2] != "1":
-            fails.append((c, "executing a Bytecode modified it (digest before and after the runs differs)"))
+        if why: suspects.append(c)
+    # a failure counts when the case fails again run by itself (the harness stops a run after 3 s,
+    # which a process starved by other work on the machine can exceed)
+    for c in suspects[:40]:
+        again_out, _ = vlib.run_impl([c["line"]], timeout=120)
+        why = judge(c, again_out.get(c["id"]) or "(no output)")
+        if why and why != "skip": fails.append((c, why))
     for c, why in fails[:10]:
         rep.violation({"property": "C07", "kind": "oracle", "why": why, "case": c["line"][:3000], "script": c["obs"], "history": c["hist"]})
     rep.coverage.update({
